@@ -96,6 +96,8 @@ Init0(a, p0) ==
 BeginMonth(e) ==
   /\ phase = "begin"
   /\ Ck("SupplyNonNeg", NonNeg(e.grass) /\ NonNeg(e.feed))
+  \* every herd the country's stock table lists with animals in it is simulated (missing: how many of them are not)
+  /\ Ck("EverySpeciesSimulated", e.missing = 0)
   /\ phase' = "feeding"
   /\ grassAvail' = e.grass /\ feedAvail' = e.feed
   /\ grassLeft' = e.grass /\ feedLeft' = e.feed
